@@ -23,6 +23,8 @@ CLAIMED["C04"] = ("other", "The from-scratch checksum is a function of file byte
   "who-may-write tables, CFG after/guarded rules, OnlyGuards (effect unconditional), mutex-held rule, origin rendering over go/ssa")
 CLAIMED["C10"] = ("other", "The snapshot/export lock protocol as a typestate over the twelve guards, folded along every feasible path: capture (position, size, page size, WAL overlay) under SHARED and, in WAL mode, the exclusive WRITE lock, nothing re-read after its release; every page read under SHARED and all five READ locks (export: plus CKPT, RECOVER); CKPT/RECOVER released only after the READ locks are held; deferred full release; pages read through the copied overlay; snapshot self-check; checkpoint gate. Does NOT explore the schedule interleavings themselves.", "DESIGN.md section 4 C10, section 3.4",
   "per-path lock-set typestate over go/ssa paths (path enumeration, phi resolution), CFG no-path rules, origin rendering")
+CLAIMED["C11"] = ("other", "Each code path on which LiteFS changes a database on its own initiative acquires the lock set the protocol requires: discovered call sites of the lock-free internal writers must be dominated by a successful AcquireWriteLock with deferred release (or by the halt-lock holder check, or lie in another family member, or be application-originated); TryAcquireWriteLock's exit lock sets per mode and release on failure (per-path typestate); no re-acquisition while holding the set; wiring tables (guards to mutexes, lock types to guards and to SQLite byte offsets, range parsers, fuse lock handlers); checkpoint gate; WAL write guards. Does NOT explore multi-owner lock state spaces.", "DESIGN.md section 4 C11, sections 3.4/3.5",
+  "call-site discovery vs tables, per-path lock-set typestate, CFG dominance with error-edge tracking, constant tables from go/types, interprocedural reachability with constant-argument pruning")
 REASONS = {}
 def main():
     checks=[]
